@@ -417,10 +417,70 @@ def _rule_rw3_paths(prog, r, f):
     return r
 
 
+def rule_rw4(prog):
+    """the rewriters of the leaves: an atomic proposition is rewritten into
+    an atomic proposition with the same name, a Boolean constant into the
+    same constant (Bool inherits from AtomicProposition in every logic, so a
+    rewriter written for atoms is the one Bool runs)"""
+    r = RuleResult('R-RW-4', 'leaf rewriters: an atom gives the same atom, a '
+                   'Boolean constant the same constant')
+    pending = None
+    for lang in ('CTL', 'CTLS', 'LTL'):
+        al = prog.alphabet(LANGS[lang])
+        cases = [('AtomicProposition', [Sym('apname', ('b', 'str'),
+                                            ('apname',))], ('atom', 'p')),
+                 ('Bool', [Const(True)], ('bool', True)),
+                 ('Bool', [Const(False)], ('bool', False))]
+        for (name, kids, want) in cases:
+            ci = al.get(name)
+            if ci is None:
+                continue
+            try:
+                f, outs = extract(prog, ci, METHOD, kids, rule='R-RW-4')
+            except Inconclusive as e:
+                if pending is None:
+                    pending = e
+                continue
+            r.inst(lang=lang, leaf='%s(%s)' % (name, kids[0]),
+                   rewriter=f.short(), results=[show(t) for (t, p) in outs])
+            for (t, p) in outs:
+                if t == want:
+                    r.ok()
+                elif t[0] == 'raise':
+                    r.fail(Finding(
+                        PROP, 'R-RW-4', f.where(), f.short(),
+                        'leaf-raise:%s:%s' % (lang, show(want)),
+                        'rewriting the %s leaf %s raises %s' % (
+                            lang, show(want), t[1]),
+                        expected=show(want), found='raise ' + str(t[1])),
+                        witness=Const(str(t[1])))
+                elif t[0] in ('atom', 'bool'):
+                    r.fail(Finding(
+                        PROP, 'R-RW-4', f.where(), f.short(),
+                        'leaf:%s:%s->%s' % (lang, show(want), show(t)),
+                        'the %s leaf (%s %s) is rewritten into (%s %s)%s' % (
+                            lang, want[0], want[1], t[0], t[1],
+                            ': an atomic proposition named like the constant, '
+                            'which no state is labelled with'
+                            if want[0] == 'bool' and t[0] == 'atom' else ''),
+                        expected='%s %s' % want, found='%s %s' % t[:2]),
+                        witness=Const(show(t)))
+                elif pending is None:
+                    pending = Inconclusive(
+                        'R-RW-4', 'the %s leaf %s is rewritten into %s' % (
+                            lang, show(want), show(t)), f.where())
+    floor('R-RW-4', 'leaf rewriters', len(r.instances), 6)
+    if pending is not None and not r.findings:
+        pending.partial = r
+        raise pending
+    return r
+
+
 def run(prog, tier, seed):
     T = Attempts()
     r1, r2 = T(rules_rw12, prog, tier, _n=2)
     r3 = T(rule_rw3, prog)
+    r4 = T(rule_rw4, prog)
     expl = ('Each rewriter is interpreted abstractly on a generic instance '
             'C(c0,..) whose children are holes; the result is a closed '
             'rewrite template. R-RW-1: templates use only the restricted '
@@ -440,4 +500,4 @@ def run(prog, tier, seed):
     from . import c11
     dep = adopt(T.results(T(c11.rule_eq2, prog)), PROP,
                 'the rewriters of leaves return clone()')
-    return T.results(r1, r2, r3) + dep, expl, assumptions, T.extra()
+    return T.results(r1, r2, r3, r4) + dep, expl, assumptions, T.extra()
